@@ -4,10 +4,12 @@ use crate::util::*;
 use serde_json::{json, Value};
 
 pub mod digests;
+pub mod hostile;
 pub mod distinfos;
 pub mod names;
 pub mod patterns;
 pub mod plists;
+pub mod scanindexes;
 pub mod summaries;
 pub mod versions;
 
@@ -36,6 +38,7 @@ impl Gen {
     }
     pub fn next(&mut self, rng: &mut Rng, i: u64) -> Option<(String, Value)> {
         match self.driver.as_str() {
+            "hostile" => Some(hostile::next(rng)),
             "@cases" => {
                 let line = self.cases.as_mut().unwrap().next()?.ok()?;
                 let v: Value = serde_json::from_str(&line).ok()?;
@@ -45,6 +48,57 @@ impl Gen {
             "distmessy" => Some(("distparse".into(), json!({"bytes": bytes_json(&distinfos::messy(rng))}))),
             "distbuild" => Some(("distbuild".into(), distinfos::build(rng))),
             "verify" => Some(("verify".into(), distinfos::verify(rng))),
+            "scanindex" => {
+                let (ls, err, nl) = scanindexes::lines(rng);
+                Some(("scanindex".into(), json!({"lines": ls.iter().map(|l| codes(l)).collect::<Vec<_>>(), "err_at": err, "final_nl": tf(nl)})))
+            }
+            "pkgdb" => {
+                let n = rng.range(0, 5);
+                let mut used: Vec<String> = vec![];
+                let mut es = vec![];
+                for _ in 0..n {
+                    let name = match rng.below(5) {
+                        0 => rng.pick_str(&["nodash", "x-", "-1", "a--2", "é-1.0"]).to_string(),
+                        _ => format!("{}-{}", rng.pick_str(&["a", "py39-foo", "lib-b-c", "x"]), rng.pick_str(&["1", "1.0nb2", "2.3.4", "0alpha1nb10"])),
+                    };
+                    if used.contains(&name) { continue; }
+                    used.push(name.clone());
+                    let dir = rng.chance(5, 6);
+                    let mut files: Vec<usize> = vec![];
+                    for f in 1..=14 {
+                        let mandatory = f == 3 || f == 4 || f == 6;
+                        if (mandatory && rng.chance(4, 5)) || (!mandatory && rng.chance(1, 4)) { files.push(f); }
+                    }
+                    es.push(json!({"name": codes(&name), "dir": tf(dir), "files": if dir { files } else { vec![] }}));
+                }
+                Some(("pkgdb".into(), json!({"entries": es})))
+            }
+            "metahist" => {
+                let calls: Vec<Value> = (0..rng.range(0, 8)).map(|_| {
+                    let e = rng.range(1, 14);
+                    let v = match rng.below(8) {
+                        0 => String::new(),
+                        1 => format!("{}", summaries::int(rng)),
+                        2 => " 42\n".replace("\\n", "\n"),
+                        3 => "abc".to_string(),
+                        4 => "line one\nline two\r\n\nlast".replace("\\n", "\n").replace("\\r", "\r"),
+                        5 => "  \n\t ".replace("\\n", "\n").replace("\\t", "\t"),
+                        6 => "99999999999999999999".to_string(),
+                        _ => summaries::text(rng),
+                    };
+                    json!([e, codes(&v)])
+                }).collect();
+                Some(("metahist".into(), json!({"calls": calls})))
+            }
+            "metaname" => {
+                let f = match rng.below(3) {
+                    0 => rng.pick_str(&["+BUILD_INFO", "+BUILD_VERSION", "+COMMENT", "+CONTENTS", "+DEINSTALL", "+DESC", "+DISPLAY", "+INSTALL",
+                                        "+INSTALLED_INFO", "+MTREE_DIRS", "+PRESERVE", "+REQUIRED_BY", "+SIZE_ALL", "+SIZE_PKG"]).to_string(),
+                    1 => rng.pick_str(&["+comment", "COMMENT", "+COMMENT ", "+SIZE", "+SIZE_PKGS", "", "+", "+DESCR", "+REQUIRED-BY"]).to_string(),
+                    _ => summaries::text(rng),
+                };
+                Some(("metaname".into(), json!({"f": codes(&f)})))
+            }
             "plist" => Some(("plist".into(), json!({"bytes": bytes_json(&plists::plist(rng))}))),
             "plistline" => Some(("plistline".into(), json!({"bytes": bytes_json(&plists::line(rng))}))),
             "digest" => Some(("digest".into(), digests::case(rng))),
